@@ -163,3 +163,93 @@ func RandBody(r *fw.Rng, max int) []byte {
 	}
 	return r.Bytes(n)
 }
+
+// Unescape reverses Escape for a delimited frame (strict: only 7d01 / 7d02 pairs).
+func Unescape(f []byte) ([]byte, bool) {
+	if len(f) < 3 || f[0] != 0x7e || f[len(f)-1] != 0x7e {
+		return nil, false
+	}
+	var out []byte
+	in := f[1 : len(f)-1]
+	for i := 0; i < len(in); i++ {
+		if in[i] == 0x7d {
+			if i+1 >= len(in) {
+				return nil, false
+			}
+			switch in[i+1] {
+			case 0x01:
+				out = append(out, 0x7d)
+			case 0x02:
+				out = append(out, 0x7e)
+			default:
+				return nil, false
+			}
+			i++
+		} else {
+			out = append(out, in[i])
+		}
+	}
+	return out, true
+}
+
+// Parse reads a frame built by Build back into (H, body) following the standard's layout.
+func Parse(f []byte) (H, []byte, bool) {
+	var h H
+	p, ok := Unescape(f)
+	if !ok || len(p) < 13 || Xor(p) != 0 {
+		return h, nil, false
+	}
+	h.ID = uint16(p[0])<<8 | uint16(p[1])
+	attr := uint16(p[2])<<8 | uint16(p[3])
+	h.V2019 = attr&(1<<14) != 0
+	h.Frag = attr&(1<<13) != 0
+	h.Encrypt = attr&(1<<10) != 0
+	h.Bits11 = attr & 0x9800
+	i, n := 4, 6
+	if h.V2019 {
+		i, n = 5, 10
+	}
+	need := i + n + 2
+	if h.Frag {
+		need += 4
+	}
+	if len(p) < need+1 {
+		return h, nil, false
+	}
+	h.Phone = append([]byte{}, p[i:i+n]...)
+	i += n
+	h.Serial = uint16(p[i])<<8 | uint16(p[i+1])
+	i += 2
+	if h.Frag {
+		h.Sum = uint16(p[i])<<8 | uint16(p[i+1])
+		h.No = uint16(p[i+2])<<8 | uint16(p[i+3])
+		i += 4
+	}
+	if len(p)-1-i != int(attr&0x3ff) {
+		return h, nil, false
+	}
+	return h, append([]byte{}, p[i:len(p)-1]...), true
+}
+
+// SplitStream cuts a concatenation of frames (no interior 7e) into its frames; ok=false if it is not one.
+func SplitStream(s []byte) ([][]byte, bool) {
+	var out [][]byte
+	for len(s) > 0 {
+		if s[0] != 0x7e || len(s) < 3 {
+			return nil, false
+		}
+		j := -1
+		for k := 1; k < len(s); k++ {
+			if s[k] == 0x7e {
+				j = k
+				break
+			}
+		}
+		if j < 2 {
+			return nil, false
+		}
+		out = append(out, s[:j+1])
+		s = s[j+1:]
+	}
+	return out, true
+}
